@@ -10,10 +10,12 @@ from ..proto import make_protocol, _exec
 gp = world.gp
 TOL = 1e-9
 KINDS = ('read', 'write', 'multi')
-FN = dict(read=3, write=6, multi=16)
+FN = dict(read=3, write=6, multi=16, read125=3)
 
 
 def command(p, kind):
+    if kind == 'read125':
+        return p.read_command(35100, 125)
     if kind == 'read':
         return p.read_command(35100, 5)
     if kind == 'write':
@@ -59,13 +61,18 @@ def validator_part():
 
 
 def run_k(cfg):
-    """Engine K: exception frame answers transmission k+1 after k silent timeouts."""
+    """Engine K: exception frame answers transmission k+1 after k silent timeouts.  With cfg['head'] the inverter
+    first delivers the head of a (long) valid read answer and only then the exception frame."""
     world.reset()
     T, R, k, kind, code = cfg['T'], cfg['R'], cfg['k'], cfg['kind'], cfg['code']
     framing = 'tcp' if cfg['transport'] == 'tcp' else 'rtu'
+    head = cfg.get('head', 0)
 
     def plan(i, req, now):
         if i == k:
+            if head:
+                full = wire.tcp_read_resp(req[:2], 0xF7, bytes(250)) if framing == 'tcp' else wire.rtu_read_resp(0xF7, bytes(250))
+                return [(D0, ('data', full[:head])), (2 * D0, ('data', exc_frame(framing, kind, code, req)))]
             return [(D0, ('data', exc_frame(framing, kind, code, req)))]
         return []
     peer = PlanPeer(plan)
@@ -87,7 +94,7 @@ def run_k(cfg):
     if len(peer.sent) != k + 1:
         vio.append(('no-retransmission', f'{len(peer.sent)} transmissions, exception answered #{k + 1}'))
     if peer.sent and len(peer.sent) > k:
-        arrival = peer.sent[k][0] + D0
+        arrival = peer.sent[k][0] + (2 * D0 if head else D0)
         if abs(t1 - arrival) > TOL:
             vio.append(('immediate', f'completed {t1 - arrival:.6f} after the exception frame arrived'))
     if any('Exception in callback' in c.get('message', '') for c in loop.unhandled):
@@ -107,6 +114,8 @@ def job(cfgs):
         for clause, cause in v:
             v2 = run_k(cfg)[0]
             cls = 'known-code' if cfg['code'] in wire.MODBUS_EXCEPTIONS else 'unknown-code'
+            if cfg.get('head'):
+                cls = 'after-fragment'
             if not any(c == clause for c, _ in v2):
                 cls += '/order-dependent'
             out.append(dict(key=f"{clause}/{cfg['transport']}/ka={int(cfg['ka'])}/{cfg['kind']}/after-{min(cfg['k'], 1)}-timeouts/{cls}",
@@ -257,6 +266,13 @@ def run(tier, seed, rep):
                     for kind in KINDS:
                         for code in codes:
                             cfgs.append(dict(transport=tr, ka=ka, T=T, R=R, k=k, kind=kind, code=code))
+    # a pending fragment of a read answer must not swallow the exception frame
+    for tr in ('udp', 'tcp'):
+        for ka in (False, True):
+            for R in (0, 1):
+                for k in range(R + 1):
+                    for head in (9, 10, 20, 100, 200, 240):   # (not 250: a remainder of exactly the exception frame's length is inherently ambiguous)
+                        cfgs.append(dict(transport=tr, ka=ka, T=1, R=R, k=k, kind='read125', code=2, head=head))
     r = seed % 7
     chunks = [cfgs[i::64] for i in range(64)]
     chunks = chunks[r:] + chunks[:r]
